@@ -1,7 +1,7 @@
 (* C09 — Re-encoding a decoded message preserves header bytes and signature validity.
    Statements only (copied from coq/theories by bin/mkprops); each proof is `exact <lemma>`. *)
 From Coq Require Import Ascii String ZArith List Bool Permutation.
-From GoCose Require Import Bytes Cbor CborProofs Res GoVal Obs Ecdsa EcdsaProofs Fx Headers Enc Dec Msg HashEnv Key SigVer Run TbsProofs FlowProofs DecProofs KeyProofs HdrProofs EncProofs EncCanon NoPanic Effects MoreProofs KeyCbor EncDec HdrRoundTrip WireLeg RulesTie HeWire.
+From GoCose Require Import Bytes Cbor CborProofs Res GoVal Obs Ecdsa EcdsaProofs Fx Headers Enc Dec Msg HashEnv Key SigVer Run TbsProofs FlowProofs DecProofs KeyProofs HdrProofs EncProofs EncCanon NoPanic Effects MoreProofs KeyCbor EncDec HdrRoundTrip WireLeg RulesTie HeWire ModesTie Bignum FixedPoint ClearedForm CastAlg.
 From GoCose.Gen Require Import Generated.
 Import ListNotations.
 Open Scope Z_scope.
@@ -58,3 +58,113 @@ Theorem C09_signmsg_reencode :
            enc_head 4 (len items) ++ concat (map renorm_sig_item items)).
 Proof. exact signmsg_reencode. Qed.
 Print Assumptions C09_signmsg_reencode.
+
+(* cleared raw bytes: two values that are the same value (integer kinds aside, nil []byte = nil, map entries in any order) encode to the same bytes, at any nesting depth *)
+Theorem C09_rel_enc :
+  forall kb,
+  forall g d b, rel g d -> enc kb g = Acc b -> enc kb d = Acc b.
+Proof. exact rel_enc. Qed.
+Print Assumptions C09_rel_enc.
+
+(* hence the encoder output is a canonical form: decoding it and encoding the decoded value gives the same bytes again *)
+Theorem C09_canonical_fixed_point :
+  forall kb g b,
+  simple g = true -> enc kb g = Acc b ->
+  exists w d, parse_full b = Some w /\ dec true w = Acc d /\ enc kb d = Acc b.
+Proof. exact canonical_fixed_point. Qed.
+Print Assumptions C09_canonical_fixed_point.
+
+Theorem C09_fixed_point_example :
+  let g := GMap [GInt KInt 256; GStr [97]; GInt KInt8 (-1); GArr [GBytes []; GBool true; GNilBytes]; GStr []; GMap [GInt KUint8 1; GNil]] in
+  match enc true g with
+  | Acc b => match parse_full b with
+             | Some w => match dec true w with Acc d => enc true d = Acc b /\ d <> g | _ => False end
+             | None => False
+             end
+  | _ => False
+  end.
+Proof. exact fixed_point_example. Qed.
+Print Assumptions C09_fixed_point_example.
+
+(* bucket level: what UnprotectedHeader.MarshalCBOR emits is accepted by UnmarshalCBOR, and MarshalCBOR of the decoded bucket returns the same bytes *)
+Theorem C09_unprotected_cleared_fixed_point :
+  forall l ub,
+  l <> [] -> simple (GMap l) = true -> (forall k v, entry_in k v l -> okval v) ->
+  enc_unprotected (Some l) = Acc ub -> within_limits ub ->
+  exists dl, unmarshal_unprotected ub = Acc dl /\ enc_unprotected (Some dl) = Acc ub.
+Proof. exact unprotected_cleared_fixed_point. Qed.
+Print Assumptions C09_unprotected_cleared_fixed_point.
+
+(* the same for the protected bucket exactly as ProtectedHeader.UnmarshalCBOR returns it (alg re-typed to Algorithm): still accepted by the validator, same bytes *)
+Theorem C09_protected_cleared_fixed_point_decoded :
+  forall l pb,
+  l <> [] -> simple (GMap l) = true -> (forall k v, entry_in k v l -> okval v) ->
+  enc_protected (Some l) = Acc pb ->
+  (forall m, enc_hmap true l = Acc m -> within_limits m) ->
+  exists dp, unmarshal_protected pb = Acc dp /\ validate_params dp true = true /\ enc_protected (Some dp) = Acc pb.
+Proof. exact protected_cleared_fixed_point_decoded. Qed.
+Print Assumptions C09_protected_cleared_fixed_point_decoded.
+
+Theorem C09_validate_cast_alg :
+  forall dl,
+  Nat.even (length dl) = true -> (forall k v, entry_in k v dl -> normalize_label k = Some k /\ is_label k) ->
+  validate_params dl true = true -> validate_params (cast_alg dl) true = true.
+Proof. exact validate_cast_alg. Qed.
+Print Assumptions C09_validate_cast_alg.
+
+Theorem C09_enc_cast_alg :
+  forall dl,
+  Nat.even (length dl) = true -> (forall k v, entry_in k v dl -> normalize_label k = Some k /\ is_label k) ->
+  validate_params dl true = true -> forall kb, enc_hmap kb (cast_alg dl) = enc_hmap kb dl.
+Proof. exact enc_cast_alg. Qed.
+Print Assumptions C09_enc_cast_alg.
+
+(* big integers (header values outside int64): in the protected bucket always a tag 2 / 3 bignum, which decodes to the same integer *)
+Theorem C09_big_protected_roundtrip :
+  forall n,
+  len (zbytes (if 0 <=? n then n else -1 - n)) < two64 ->
+  enc true (GBig n) = Acc (ser (big_wire_tag n)) /\ wf (big_wire_tag n) = true /\ canonical (big_wire_tag n) = true /\
+  dec true (big_wire_tag n) = Acc (GBig n).
+Proof. exact big_protected_roundtrip. Qed.
+Print Assumptions C09_big_protected_roundtrip.
+
+(* elsewhere a plain 64-bit integer, tag-free *)
+Theorem C09_big_unprotected_encoding :
+  forall n,
+  - two64 <= n < two64 ->
+  enc false (GBig n) = Acc (ser (big_wire_int n)) /\ good (big_wire_int n) /\ notags (big_wire_int n) = true.
+Proof. exact big_unprotected_encoding. Qed.
+Print Assumptions C09_big_unprotected_encoding.
+
+(* which decodes to the same big integer below -2^63 (and is refused above MaxInt64: no tag-free input produces such a value) *)
+Theorem C09_big_unprotected_decoding :
+  forall n,
+  - two64 <= n < two64 ->
+  (n < - 2 ^ 63 -> dec true (big_wire_int n) = Acc (GBig n)) /\
+  (- 2 ^ 63 <= n <= maxint64 -> dec true (big_wire_int n) = Acc (GInt KInt64 n)) /\
+  (maxint64 < n -> dec true (big_wire_int n) = Rej EOther).
+Proof. exact big_unprotected_decoding. Qed.
+Print Assumptions C09_big_unprotected_decoding.
+
+Theorem C09_big_from_tagfree :
+  forall w n,
+  wf w = true -> notags w = true -> dec true w = Acc (GBig n) -> - two64 <= n < - 2 ^ 63.
+Proof. exact big_from_tagfree. Qed.
+Print Assumptions C09_big_from_tagfree.
+
+(* so the cleared re-encoding of every big integer the decoders can have produced decodes to itself, in both buckets *)
+Theorem C09_big_reencode_fixed_point :
+  (forall n, len (zbytes (if 0 <=? n then n else -1 - n)) < two64 ->
+     exists w, enc true (GBig n) = Acc (ser w) /\ wf w = true /\ dec true w = Acc (GBig n)) /\
+  (forall w n, wf w = true -> notags w = true -> dec true w = Acc (GBig n) ->
+     exists w', enc false (GBig n) = Acc (ser w') /\ wf w' = true /\ notags w' = true /\ dec true w' = Acc (GBig n)).
+Proof. exact big_reencode_fixed_point. Qed.
+Print Assumptions C09_big_reencode_fixed_point.
+
+Theorem C09_big_examples :
+  enc true (GBig (2 ^ 63)) = Acc [194; 72; 128; 0; 0; 0; 0; 0; 0; 0] /\
+  enc false (GBig (- 2 ^ 63 - 1)) = Acc [59; 128; 0; 0; 0; 0; 0; 0; 0] /\
+  dec true (WInt true W8 (2 ^ 63)) = Acc (GBig (- 2 ^ 63 - 1)) /\
+  enc true (GBig (- 2 ^ 63 - 1)) = Acc [195; 72; 128; 0; 0; 0; 0; 0; 0; 0].
+Proof. exact big_examples. Qed.
+Print Assumptions C09_big_examples.
